@@ -7,7 +7,7 @@ META = {
                    'entry->return path of x224::Client::connect, read_connection_confirm, tpkt start_ssl/start_nla, '
                    'Link::start_ssl and Connector::connect is enumerated; on each Ok path the rules require (R02.1) a TLS '
                    'upgrade whose result is the transport of the returned client, matching the selected protocol, (R02.2) '
-                   'the bit test selected & offered != 0 against the offered mask parameter, (R02.3) only a negotiation '
+                   'the bit test selected & offered != 0 against the offered mask parameter, (R02.3) the selected protocol is validated on all 32 bits (no narrowing before the enum conversion) and only a negotiation '
                    'response on a slow-path payload yields a protocol, (R02.4) nothing but the connection request is '
                    'written before TLS and CredSSP/MCS/Client Info are only reachable after it, (R02.5) the '
                    'certificate-check flag reaches danger_accept_invalid_certs negated and position-exact from '
